@@ -1146,9 +1146,17 @@ fn hist_compact(h: &[Op]) -> String {
 /// frozen-tier removal skipped for the last node slot).
 fn explore(depth: usize, bounds: &Bounds, max_states: u64, qs: &[ParsedQ]) -> Explored {
     let mut ex = explore_from(&[], depth, bounds, max_states, qs);
-    let prefix = [Op::CreateNode(0, 0), Op::CreateNode(1, 2), Op::CreateEdge(1, 2, 0), Op::Compact];
     let extra = std::env::var("C02_PREFIX_DEPTH").ok().and_then(|s| s.parse().ok()).unwrap_or(3usize);
-    let ex2 = explore_from(&prefix, extra, bounds, max_states, qs);
+    // second non-initial start state: the indexed property holds values of two type families (a
+    // string next to a number) under one label -- the quick tier's value alphabet has no string, so
+    // an index range scan never had to step over keys of another family (seeded change C02b)
+    let prefixes: Vec<Vec<Op>> = vec![
+        vec![Op::CreateNode(0, 0), Op::CreateNode(1, 2), Op::CreateEdge(1, 2, 0), Op::Compact],
+        vec![Op::CreateNode(0, 3), Op::CreateNode(0, 0)],
+    ];
+    for (pi, prefix) in prefixes.iter().enumerate() {
+    let extra = if pi == 0 { extra } else { extra.min(2) };
+    let ex2 = explore_from(prefix, extra, bounds, max_states, qs);
     ex.stats.states += ex2.stats.states;
     ex.stats.transitions += ex2.stats.transitions;
     ex.stats.cap_hit |= ex2.stats.cap_hit;
@@ -1175,6 +1183,7 @@ fn explore(depth: usize, bounds: &Bounds, max_states: u64, qs: &[ParsedQ]) -> Ex
     ex.checked_states += ex2.checked_states;
     for (i, n) in ex2.per_query_nonempty.iter().enumerate() {
         ex.per_query_nonempty[i] += n;
+    }
     }
     ex
 }
